@@ -247,5 +247,63 @@ def rule_v7(repo):
     return res
 
 
+def _neutral_side(repo, thm):
+    """'left' / 'right' for a theorem  c op x = ..  /  x op c = ..  with a numeral c (read from library/*.json), else None"""
+    import json
+    import os
+    import re
+    for fn in sorted(os.listdir(os.path.join(repo.root, 'library'))):
+        if not fn.endswith('.json'):
+            continue
+        try:
+            d = json.load(open(os.path.join(repo.root, 'library', fn), encoding='utf-8'))
+        except ValueError:
+            continue
+        for it in d.get('content', []):
+            if it.get('name') == thm and it.get('ty') == 'thm' and isinstance(it.get('prop'), str):
+                m = re.match(r'^\(?(\S+) (\S) (\S+?)\)? = \S+$', it['prop'])
+                if not m:
+                    return None
+                l, r = m.group(1).lstrip('('), m.group(3)
+                ln, rn = bool(re.match(r'^\d+(::\w+\)?)?$', l)), bool(re.match(r'^\d+(::\w+\)?)?$', r))
+                return 'left' if ln and not rn else 'right' if rn and not ln else None
+    return None
+
+
+def rule_v8(repo):
+    """In the arithmetic normalisers a step `arg1_conv(c)` / `arg_conv(c)` can turn that argument into the
+    neutral (or absorbing) element, and the next step `try_conv(rewr_conv(T))` removes it.  T must be the theorem for
+    *that* side (0 + n = n after arg1_conv, n + 0 = n after arg_conv): try_conv swallows the failed match of the other
+    one, `0 + b` stays in the result, and two equal polynomials get different normal forms."""
+    res = RuleResult('C10.V8', 'the clean-up rewrite after normalising one argument is the theorem for that side', floor=3)
+
+    def side_of(c):
+        while isinstance(c, ast.Call) and call_name(c) == 'try_conv' and c.args:
+            c = c.args[0]
+        if isinstance(c, ast.Call) and call_name(c) in ('arg1_conv', 'arg_conv'):
+            return 'left' if call_name(c) == 'arg1_conv' else 'right'
+        return None
+    for rel in ('data/integer.py', 'data/real.py', 'data/nat.py'):
+        m = repo.module(rel)
+        for f in m.all_funcs:
+            for c in ast.walk(f.node):
+                if not (isinstance(c, ast.Call) and call_attr(c) in ('on_rhs', 'on_lhs') or isinstance(c, ast.Call) and call_name(c) in ('then_conv', 'every_conv')):
+                    continue
+                for prev, cur in zip(c.args, c.args[1:]):
+                    if not (isinstance(cur, ast.Call) and call_name(cur) == 'try_conv' and len(cur.args) == 1 and isinstance(cur.args[0], ast.Call) and
+                            call_name(cur.args[0]) == 'rewr_conv' and cur.args[0].args and isinstance(cur.args[0].args[0], ast.Constant) and not cur.args[0].keywords):
+                        continue
+                    thm = cur.args[0].args[0].value
+                    ps, ts = side_of(prev), _neutral_side(repo, thm)
+                    if ps is None or ts is None:
+                        continue
+                    res.add('%s :: %s :: cleanup(%s after %s)' % (rel, f.qualname, thm, src(prev, 30)), ps == ts,
+                            'the %s argument was normalised, the theorem removes the numeral on the %s' % (ps, ts) if ps == ts else
+                            '`%s` normalised the %s argument (which can become the numeral), but `%s` removes a numeral on the %s: the failed match '
+                            'is swallowed by try_conv and the numeral stays in the normal form (x + y - x is normalised to 0 + y)' % (
+                                src(prev, 30), ps, thm, ts), '%s:%d' % (rel, cur.lineno))
+    return res
+
+
 def rules(repo):
-    return [rule_v1(repo), rule_v2(repo), rule_v3(repo), rule_v4(repo), rule_v5(repo), rule_v6(repo), rule_v7(repo)]
+    return [rule_v1(repo), rule_v2(repo), rule_v3(repo), rule_v4(repo), rule_v5(repo), rule_v6(repo), rule_v7(repo), rule_v8(repo)]
